@@ -61,14 +61,14 @@ def mc_files(ctx, name, la, lb, u, root):
 
 
 def consts(dirs, maxops):
-    c = {"InitA": "<-MCInitA", "InitB": "<-MCInitB", "Mats": "<-MCMats", "Floors": {80, 20}, "MaxOps": maxops}
+    c = {"InitA": "<-MCInitA", "InitB": "<-MCInitB", "Mats": "<-MCMats", "Floors": {80, 20}, "MaxOps": maxops, "ObsToks": set()}
     c.update(dirs)
     return c
 
 
 ONE_WAY = {"SaveFrom": {"A"}, "LoadInto": {"B"}, "DenseOn": set()}
 BOTH = {"SaveFrom": {"A", "B"}, "LoadInto": {"A", "B"}, "DenseOn": {"A", "B"}}       # (unused by the trace layer)
-INVS = ["InvRestore", "InvRestoreLegacy", "InvReports", "InvDense", "InvUnique"]
+INVS = ["InvRestore", "InvRestoreLegacy", "InvReports", "InvDense", "InvFunctional", "InvUnique"]
 
 
 def design(ctx, name, la, lb, u, dirs, maxops, workers=4):
@@ -85,6 +85,8 @@ def execute(ctx, cases):
 
 def _slim(tr):
     t = {"A": tr["A"], "B": tr["B"], "outcome": tr["outcome"], "events": []}
+    if "alto" in tr:
+        t["alto"] = tr["alto"]
     for ev in tr["events"]:
         t["events"].append({k: v for k, v in ev.items() if k != "error"})
     return t
@@ -99,9 +101,9 @@ def judge(ctx, name, cases, traces, u):
                             files=mc_files(ctx, name + "_tr", [], [], u, "LogitsStore_Trace"),
                             label="LogitsStore_Trace %s" % name, jvm_mem="3g")
     for c, tr in zip(cases, traces):
-        ids_a = {l["id"] for l in c["A"]}
-        nontrivial = bool(ids_a & {l["id"] for l in c["B"]}) and any(e["op"] == "Load" for e in tr["events"])
-        ctx.count(1, json.dumps([c["A"], c["B"], c["ops"]]) if nontrivial else None)
+        ids_a = {l["id"] for l in tr["A"]}
+        nontrivial = bool(ids_a & {l["id"] for l in tr["B"]}) and any(e["op"] == "Load" for e in tr["events"])
+        ctx.count(1, json.dumps([tr["A"], tr["B"], c.get("ops") or [c["k"], c["ver"], c["via"]]]) if nontrivial else None)
     ctx.sample({"space": name, "trace": slim[len(slim) // 2]}, limit=3)
     for i, prog in rej:
         tr, c = traces[i], cases[i]
@@ -109,13 +111,18 @@ def judge(ctx, name, cases, traces, u):
             sig, what = "raised:%s" % tr["outcome"].split(":")[-1], "the harness-level sequence raised %s" % tr.get("error")
         elif prog < len(tr["events"]):
             ev = tr["events"][prog]
-            sig = "%s%s" % (ev["op"].lower(), ":raised" if (ev["status"] == "error" and ev["op"] != "Save") else "")
+            sig = "%s%s" % (ev["op"].lower() if ev["op"] != "Observe" else "rebuilt-output:" + ev["k"],
+                            ":raised" if (ev["status"] == "error" and ev["op"] != "Save") else "")
             what = ("call %d %s(%s, %s%s) is not a %s step of LogitsStore: status=%s %s; layouts after the call A=%s B=%s; slot=%s" % (
                 prog + 1, ev["op"], ev["L"], ev["k"], ", missing_ok=%s" % ev["ok"] if ev["op"] == "Save" else "", ev["op"],
                 ev["status"], ev.get("error", ""), ev["A"], ev["B"], ev["ents"]))
+            if ev["op"] == "Observe":
+                what = ("the %s output of layout %s%s differs from the output observed earlier for the same line ids / logits / "
+                        "characters / windows (original vs rebuilt from PAGE XML + saved logits): %s" % (
+                            ev["k"], ev["L"], " line %d" % ev["i"] if ev["i"] else "", tr.get("alto", "")))
         else:
             sig, what = "end", "trace not accepted"
-        ctx.violation({"case": c, "trace": slim[i], "progress": prog}, sig, "%s; initial A=%s B=%s" % (what, c["A"], c["B"]))
+        ctx.violation({"case": c, "trace": slim[i], "progress": prog}, sig, "%s; initial A=%s B=%s" % (what, tr["A"], tr["B"]))
     return acc, rej
 
 
@@ -173,11 +180,11 @@ def run(ctx):
             first = False
     # both directions, longer sequences, on a smaller set of layouts
     full = {"SaveFrom": {"A", "B"}, "LoadInto": {"A", "B"}, "DenseOn": {"A", "B"}}
-    sa = [l for l in L.layouts(2, ids=["x", "y"]) if len(l) >= 1][::(13 if ctx.tier == "quick" else 3)]
+    sa = [l for l in L.layouts(2, ids=["x", "y"]) if len(l) >= 1][::(13 if ctx.tier == "quick" else 5)]
     sb = L.layouts(2, old=True, ids=["x", "y"])[::2]
-    design(ctx, "small-both", sa, sb, u, full, 3)
+    design(ctx, "small-both", sa, sb, u, dict(full, ObsToks=({1} if ctx.tier == "quick" else {1, 2})), 3)
     if ctx.tier == "thorough":
-        design(ctx, "small-both-deep", sa[::9], sb[::2], u, full, 4)
+        design(ctx, "small-both-deep", sa[::9], sb[::2], u, dict(full, ObsToks={1}), 4)
     rng = random.Random(ctx.seed * 104729 + 9)
     n = 400 if ctx.tier == "quick" else 6000
     pool_a, pool_b = L.layouts(3), L.layouts(3, old=True)
@@ -185,6 +192,17 @@ def run(ctx):
              for _ in range(n)]
     traces = execute(ctx, cases)
     judge(ctx, "seeded-sequences", cases, traces, u)
+    # composite clause: layout rebuilt from the saved PAGE XML + logits re-decodes / exports ALTO like the original
+    import itertools
+    cu = L.composite_universe(ctx.seed)
+    ccases = [{"ids": list(seq), "k": k, "ver": ver, "via": via, "universe": cu}
+              for n in (1, 2, 3) for seq in itertools.permutations(L.IDS, n)
+              for k in ("file", "bytes") for ver in (1, 2) for via in ("string", "ctor")]
+    if ctx.tier == "quick":
+        ccases = ccases[::3]
+    L.set_workdir(ctx.workdir)
+    ctraces = [L.run_composite(c) for c in ccases]
+    judge(ctx, "composite", ccases, ctraces, cu)
     ctx.notes["explanation"] = ("TLC exhaustive on LogitsStore (%s) per layout space; every layout pair replayed on real PageLayout "
                                 "objects with real scipy sparse matrices through save_logits / save_logits_bytes / load_logits / "
                                 "get_dense_logits / get_full_logprobs and validated by LogitsStore_Trace; plus seeded operation "
@@ -195,7 +213,7 @@ def run(ctx):
 def replay(ctx, case):
     c = case["case"]
     L.set_workdir(ctx.workdir)
-    tr = L.run_case(c)
+    tr = L.run_composite(c) if "ids" in c else L.run_case(c)
     judge(ctx, "replay", [c], [tr], _u(c["universe"]))
 
 
